@@ -447,23 +447,31 @@ Section Msg.
     Proof.
       induction d2 as [|f d2 IH]; intros d1 lo acc HD Hinc Hacc Hty.
       - cbn. rewrite app_nil_r. split; [reflexivity | constructor].
-      - destruct Hinc as (H1 & H2 & H3). inversion Hty as [|? ? Hf Hty']; subst.
-        assert (Hfind : find_field (d1 ++ f :: d2) (f_num f) = Some f) by (eapply find_field_mid; exact wfD).
+      - destruct Hinc as (H1 & H2 & H3).
+        pose proof (Forall_inv Hty) as Hf. pose proof (Forall_inv_tail Hty) as Hty'.
+        assert (Hfind : find_field D (f_num f) = Some f).
+        { rewrite HD. eapply find_field_mid. rewrite <- HD. exact wfD. }
         assert (Hacc' : all_lt (f_num f) acc) by (eapply all_lt_weaken; [|exact Hacc]; lia).
         cbn [flat_map]. rewrite fold_left_app.
-        unfold field_records at 1. unfold canon_entry at 1. unfold field_typed in Hf.
+        change (field_records m f) with (match dm_get m (f_num f) with Some v => enc_field P em f v | None => [] end).
+        change (canon_entry cn m f)
+          with (match dm_get m (f_num f) with
+                | Some v => if has_value f v then [(f_num f, canon_field cn f v)] else []
+                | None => []
+                end).
+        unfold field_typed in Hf.
         destruct (dm_get m (f_num f)) as [v|] eqn:Eg.
         + destruct (field_roundtrip f acc v Hfind Hacc' Hf) as [R1 R2]. rewrite R1.
           destruct (IH (d1 ++ [f]) (f_num f) (acc ++ (if has_value f v then [(f_num f, canon_field cn f v)] else [])))
             as [I1 I2]; try assumption.
-          { rewrite <- app_assoc. reflexivity. }
+          { rewrite <- app_assoc. exact HD. }
           { destruct (has_value f v).
             - apply all_lt_snoc; [lia | exact Hacc'].
             - rewrite app_nil_r. eapply all_lt_weaken; [|exact Hacc']. lia. }
           rewrite I1, <- app_assoc. split; [reflexivity|]. apply Forall_app. split; assumption.
         + cbn [fold_left app].
           destruct (IH (d1 ++ [f]) (f_num f) acc) as [I1 I2]; try assumption.
-          { rewrite <- app_assoc. reflexivity. }
+          { rewrite <- app_assoc. exact HD. }
           { eapply all_lt_weaken; [|exact Hacc']. lia. }
           rewrite I1. split; [reflexivity | exact I2].
     Qed.
